@@ -37,6 +37,10 @@ import (
 	"time"
 
 	"lunar/engine/actions"
+	"lunar/engine/config"
+	"lunar/engine/routing"
+	"lunar/engine/runner"
+	"lunar/engine/services"
 	lunarMessages "lunar/engine/messages"
 	"lunar/engine/services/remedies"
 	"lunar/engine/streams"
@@ -49,7 +53,12 @@ import (
 	contextmanager "lunar/toolkit-core/context-manager"
 	"lunar/toolkit-core/verifhook"
 
+	"verifharness/internal/c11acc"
 	"verifharness/internal/vh"
+
+	"github.com/negasus/haproxy-spoe-go/message"
+	"github.com/negasus/haproxy-spoe-go/payload/kv"
+	"github.com/negasus/haproxy-spoe-go/request"
 )
 
 type Event struct {
@@ -64,10 +73,17 @@ type Event struct {
 	St     int      `json:"st,omitempty"`
 	New    bool     `json:"new,omitempty"`
 	D      int      `json:"d,omitempty"`
+	Remedies []RemedyCfg `json:"remedies,omitempty"` // handler mode: the retry remedies that apply to the call
 	Calls  []Event   `json:"calls,omitempty"` // conc: responses of different sequences handled at the same time (flows mode)
 	N      int       `json:"n,omitempty"`     // burst: number of other sequences opened at once
 	Flows  []FlowCfg `json:"flows,omitempty"` // flows mode with several flows, each holding a Retry processor
 	U      string    `json:"u,omitempty"`     // ... path of the call ("orders", "other", ...): decides which flows are selected
+}
+
+// RemedyCfg is one enabled retry remedy of the policies file: scope "global" or "endpoint" (the endpoint the calls go to).
+type RemedyCfg struct {
+	Scope string `json:"scope"`
+	A     int    `json:"A"`
 }
 
 // FlowCfg is one user flow  Filter(status) -hit-> Retry(key)  with its own URL filter.
@@ -686,6 +702,138 @@ func (f *flowsRun) adv(d int) {
 	f.clock.AdvanceTime(time.Duration(d) * time.Second)
 }
 
+// --------------------------------------------------------------- handler mode
+// policy mode end to end: lunar-on-response messages through routing.Handler of a policy-mode HandlingDataManager (real
+// accessor, real services.Initialize plugins, real runner): every retry remedy that applies to the call (endpoint and
+// global) is consulted by the runner, the recorded answer is what the gateway tells the proxy: "retry" when the reply sets
+// x-lunar-retry-after, "noop" otherwise.  "reload" re-applies the same policies (new version, same remedies).
+
+type nopWriter struct{}
+
+func (nopWriter) Write(b []byte) (int, error) { return len(b), nil }
+func (nopWriter) Close() error                { return nil }
+
+type hdlRun struct {
+	fx      *c11acc.Fixture
+	dm      *routing.HandlingDataManager
+	handler routing.MessageHandler
+	yaml    func(gen int) []byte
+	gen     int
+	prefix  string
+	txn     int
+}
+
+var validationsOnce sync.Once
+
+func retryRemedyYAML(indent, name string, e Event, a int) string {
+	var rs strings.Builder
+	for _, r := range e.Ranges {
+		fmt.Fprintf(&rs, "%s          - from: %d\n%s            to: %d\n", indent, r[0], indent, r[1])
+	}
+	return fmt.Sprintf(`%[1]s- name: "%[2]s"
+%[1]s  enabled: true
+%[1]s  config:
+%[1]s    retry:
+%[1]s      attempts: %[3]d
+%[1]s      initial_cooldown_seconds: %[4]d
+%[1]s      cooldown_multiplier: %[5]d
+%[1]s      conditions:
+%[1]s        status_code:
+%[6]s`, indent, name, a, e.Cd, e.Mult, rs.String())
+}
+
+func newHandlerRun(e Event, root string) *hdlRun {
+	validationsOnce.Do(func() {
+		// the validations routing.initializePolicies registers at start-up (they infer the plugin types)
+		sharedConfig.Validate.RegisterStructValidation(config.ValidateStructLevel,
+			sharedConfig.Remedy{}, sharedConfig.Diagnosis{}, sharedConfig.PoliciesConfig{})
+		if err := sharedConfig.Validate.RegisterValidation("validateInt", config.ValidateInt); err != nil {
+			vh.Die("register validation: %v", err)
+		}
+	})
+	historySeq++
+	h := &hdlRun{prefix: fmt.Sprintf("h%d.", historySeq)}
+	h.yaml = func(gen int) []byte {
+		var g, ep strings.Builder
+		for i, r := range e.Remedies {
+			name := fmt.Sprintf("retry-%s-%d-gen%d", r.Scope, i, gen)
+			if r.Scope == "global" {
+				g.WriteString(retryRemedyYAML("    ", name, e, r.A))
+			} else {
+				ep.WriteString(retryRemedyYAML("      ", name, e, r.A))
+			}
+		}
+		out := "global:\n  remedies:"
+		if g.Len() == 0 {
+			out += " []\n"
+		} else {
+			out += "\n" + g.String()
+		}
+		out += "  diagnosis: []\nendpoints:"
+		if ep.Len() == 0 {
+			out += " []\n"
+		} else {
+			out += "\n  - url: \"api.test/x\"\n    method: GET\n    remedies:\n" + ep.String() + "    diagnosis: []\n"
+		}
+		return []byte(out)
+	}
+	engineDirSeq++
+	fx, build := c11acc.NewRaw(filepath.Join(root, fmt.Sprintf("acc-%d", engineDirSeq)), h.yaml(0), epoch)
+	h.fx = fx
+	w := nopWriter{}
+	svc, err := services.Initialize(w, 100000*time.Hour, build.Initial.Config.Exporters)
+	if err != nil {
+		vh.Die("services.Initialize: %v", err)
+	}
+	h.dm = routing.VerifNewPolicyModeManager(build, svc, runner.NewDiagnosisWorker(), w)
+	h.handler = routing.Handler(h.dm)
+	return h
+}
+
+func (h *hdlRun) resp(e Event) vh.Ev {
+	h.txn++
+	seq := h.prefix + e.S
+	id := seq
+	if !e.New {
+		id = fmt.Sprintf("%s-t%d", seq, h.txn)
+	}
+	k := kv.NewKV()
+	k.Add("id", id)
+	k.Add("sequence_id", seq)
+	k.Add("method", "GET")
+	k.Add("url", "api.test/x")
+	k.Add("status", int64(e.St))
+	k.Add("headers", "content-type: text/plain\r\n")
+	k.Add("body", []byte(""))
+	req := &request.Request{Messages: &message.Messages{{Name: "lunar-on-response", KV: k}}}
+	h.handler(req)
+	out := vh.Ev{"ev": "resp", "s": e.S, "st": e.St, "new": e.New, "via": "handler"}
+	answer := "noop"
+	if req.Actions == nil {
+		answer = "unanswered"
+	}
+	for _, a := range req.Actions {
+		if v, ok := a.Value.(string); ok && strings.Contains(strings.ToLower(v), remedies.LunarRetryAfterHeaderName) {
+			answer = "retry"
+		}
+	}
+	out["out"] = answer
+	return out
+}
+
+func (h *hdlRun) reload() vh.Ev {
+	h.gen++
+	if err := h.fx.Accessor.UpdateRawData(h.yaml(h.gen)); err != nil {
+		vh.Die("reload: %v", err)
+	}
+	return vh.Ev{"ev": "reload", "gen": h.gen}
+}
+
+func (h *hdlRun) close() {
+	h.dm.StopDiagnosisWorker()
+	os.RemoveAll(h.fx.Dir)
+}
+
 // ------------------------------------------------------------------------ main
 
 func main() {
@@ -700,6 +848,9 @@ func main() {
 	if d := os.Getenv("LUNAR_PROXY_PROCESSORS_DIRECTORY"); d != "" {
 		environment.SetProcessorsDirectory(d)
 	}
+	if p := os.Getenv("HAPROXY_MANAGE_ENDPOINTS_PORT"); p != "" {
+		c11acc.StartFake(p, os.Getenv("LUNAR_HEALTHCHECK_PORT"))
+	}
 	var scripts []Script
 	vh.ReadJSON(os.Args[2], &scripts)
 	for si, sc := range scripts {
@@ -709,6 +860,7 @@ func main() {
 		for _, h := range sc.Histories {
 			var pol *policyRun
 			var fl *flowsRun
+			var hd *hdlRun
 			for _, e := range h {
 				switch e.Ev {
 				case "reset":
@@ -730,7 +882,27 @@ func main() {
 						}
 						rec["seqs"], rec["atts"], rec["flows"] = keys, katts, e.Flows
 					}
+					if hd != nil {
+						hd.close()
+						hd = nil
+					}
 					switch e.Mode {
+					case "handler":
+						hd = newHandlerRun(e, os.Args[3])
+						sum := 0
+						for _, r := range e.Remedies {
+							sum += r.A
+						}
+						// one remedy: the plugin's own bookkeeping is judged (policy mode of the spec); several: the statement
+						// bounds what the gateway asks for by the configured numbers together (mode "multi")
+						rec["mode"], rec["A"], rec["remedies"] = "policy", sum, e.Remedies
+						if len(e.Remedies) > 1 {
+							rec["mode"] = "multi"
+						}
+						for i := range atts {
+							atts[i] = sum
+						}
+						rec["atts"] = atts
 					case "policy":
 						pol = newPolicy(e)
 					case "flows":
@@ -748,8 +920,14 @@ func main() {
 						vh.Die("unknown mode %q", e.Mode)
 					}
 					tr.Add(rec)
+				case "reload":
+					if hd != nil {
+						tr.Add(hd.reload())
+					}
 				case "resp":
-					if pol != nil {
+					if hd != nil {
+						tr.Add(hd.resp(e))
+					} else if pol != nil {
 						tr.Add(pol.resp(e))
 					} else if fl != nil && fl.multi {
 						for _, ev := range fl.respMulti(e) {
@@ -787,6 +965,9 @@ func main() {
 			}
 			if pol != nil {
 				pol.finish()
+			}
+			if hd != nil {
+				hd.close()
 			}
 		}
 		tr.Write(filepath.Join(os.Args[3], fmt.Sprintf("trace-%03d.ndjson", si)))
